@@ -16,6 +16,22 @@ CHECKS = {
    technique="runtime monitor: differential reference-model oracle (exact big.Int sum rounded into the format's member set) over generated hostile workloads, per DefaultRoundingMode phase",
    text="Every Add/Sub/AddWithMode/SubWithMode call on generated finite operand pairs is observed at the API boundary and judged by an exact rational oracle in all 6 modes and under all 6 DefaultRoundingMode values; workloads are constructed per cell of the rounding decision table (mode x sign x guard digit x sticky x parity x seam class), per exponent gap 0..80 and far gaps, near-cancellation and random shapes. Exploration: held on the executions counted in evidence.",
    ref="DESIGN.md §5 C01"),
+ "C02": dict(
+   technique="runtime monitor: differential reference-model oracle (exact product / rational quotient rounded into the member set, flush rule below 1e-6177) over generated hostile workloads, per DefaultRoundingMode phase",
+   text="Every Mul/Quo/MulWithMode/QuoWithMode call on generated finite pairs is judged by an exact oracle in all 6 modes and under all 6 default modes; workloads cover operand-width classes, constructed ties, terminating and repeating quotients, quotient-estimate steering divisors, the subnormal band, the 1e-6177 flush threshold and the overflow edge. Exploration: held on the executions counted in evidence.",
+   ref="DESIGN.md §5 C02"),
+ "C03": dict(
+   technique="runtime monitor: differential reference-model oracle (big.Int truncated quotient and exact remainder) over generated hostile workloads",
+   text="Every QuoRem/QuoRemWithMode call on generated pairs (exponent gaps -45..120 and up to 12287, exact multiples +/-1, zero and infinite operands) is judged: quotient = trunc(x/y) rounded only if it does not fit, remainder exactly x - y*trunc(x/y) with x's sign. Exploration.",
+   ref="DESIGN.md §5 C03"),
+ "C04": dict(
+   technique="runtime monitor: exact-order oracle on decoded rationals over a constructed grid of operand pairs, triples and sorted sequences",
+   text="Cmp (both orders), CmpAbs, Equal, Compare, Min, Max, IsZero, Sign are observed on the full (digit length x digit length x gap -40..40) grid with cohort-equal / off-by-one-unit / truncated relations, on specials and arbitrary bit patterns, on triples (transitivity of the observed answers) and 64-element sorts; each answer is judged against the exact order. Exploration.",
+   ref="DESIGN.md §5 C04"),
+ "C05": dict(
+   technique="runtime monitor: independent grammar recogniser + exact big.Int value of the literal rounded into the member set, over generated and mutated strings, per DefaultRoundingMode phase",
+   text="Parse, MustParse, UnmarshalText and fmt.Sscan are observed on generated literals (1..70000 digits, any exponent field, ties and sticky tails around the 38/39-digit cut-off, range thresholds, underscores, special names) and byte-level mutations; the oracle classifies each string as must-accept / must-reject / undecided by the documented grammar and computes the exact rounded value. Exploration.",
+   ref="DESIGN.md §5 C05"),
 }
 
 PENDING = "monitor for this property is not built yet in this revision (work in progress; see DESIGN.md §5 for the planned monitor)"
